@@ -53,6 +53,33 @@ if a in s:
 n_first = sum(1 for r in rows if "| caught |" in r.split("|", 3)[2:3][0] + "|" or r.split("|")[2].strip() == "caught")
 print(f"seeded: {len(rows)}; caught at first run: {sum(1 for r in rows if r.split('|')[2].strip()=='caught')}; caught now: {sum(1 for r in rows if r.split('|')[3].strip().startswith('caught'))}")
 
+# ---- §7.5: narrative tables of the waves recorded only in meta.json (wave 10 onwards): what each change needs + first run
+import glob as _glob
+def _wave(m):
+    mm = re.search(r"wave (\d+)", m.get("source", "")); return int(mm.group(1)) if mm else 0
+metas = [json.load(open(f)) for f in sorted(_glob.glob(f"{V}/seeded/C*/meta.json"))]
+# wave 10 metas carry the label "wave 9" (intake script default at the time); they are the ones added by commit fc77ae6
+W10 = {"C01-6","C02-7","C03-6","C04-6","C05-6","C06-7","C07-7","C10-6","C12-6","C13-6","C14-6","C15-6","C18-7","C19-7"}
+out = []
+for title, sel in (("Wave 10 (end of session 2; 14 properties)", lambda m: m["id"] in W10),
+                   ("Wave 11 (session 3; all 20 properties; run against the COMMITTED checks through lib/verif_snapshot.sh while the workers were editing)", lambda m: _wave(m) == 11)):
+    rs = []
+    for m in metas:
+        if not sel(m): continue
+        d = str(m.get("detected_by", ""))
+        st = "**missed**" if d.startswith("MISSED") else ("broken tie only" if d.startswith("broken") else "caught")
+        das = m.get("detected_after_strengthening")
+        if das and st != "caught":
+            st += " → **caught** " + (das if isinstance(das, str) else "").replace("|", "/").replace("\n", " ")[:300]
+        rs.append(f"| {m['id']} | {m.get('needs_to_manifest','').replace('|','/')[:330]} | {st} |")
+    n = len(rs); c = sum(1 for r in rs if r.rstrip().endswith("| caught |"))
+    out.append(f"{title}: {c} of {n} caught with a failing input at first sight.\n\n| id | change (what it needs) | first run → now |\n|---|---|---|\n" + "\n".join(rs))
+s2 = open(p).read()
+a = "<!-- TABLE75W:BEGIN -->"; b = "<!-- TABLE75W:END -->"
+if a in s2:
+    s2 = s2[:s2.index(a) + len(a)] + "\n" + "\n\n".join(out) + "\n" + s2[s2.index(b):]
+    open(p, "w").write(s2)
+
 # ---- §7.3: every `fix:` commit of /repo with the property whose check found it (KNOWN_FINDINGS fixed entries)
 import subprocess
 fixed = {}
